@@ -17,7 +17,7 @@ from typing import Dict, Optional
 from .. import poly
 from ..model import AnalysisError
 from ..numdom import AV, INF, NumError, NumEval, add, const
-from ..sym import NONE, Term, mentions, show, subterms
+from ..sym import Event, NONE, Term, mentions, show, subterms
 from ..util import (SELF, arg, callee, is_call, method_call, paths, returning, short, where)
 
 LEVEL = 'proof'
@@ -75,7 +75,64 @@ def duccio_inputs(call: Term, strength: Term, target: Term, epoch: Term, nep: Te
 KEEP19 = ('get_cost',)
 
 
+def named_cost_plumbing(ctx, rule: str):
+    """``model.get_cost(name)`` is the NAMED cost: DNAS.get_cost hands _get_single_cost the
+    specification and the function map stored under the same name (or the single ones when no
+    name is given), and _create_cost_fn_map builds the map of each name from the specification
+    of that name."""
+    repo = ctx.repo
+    d = repo.cls('DNAS')
+    gc, mk = d.methods['get_cost'], d.methods['_create_cost_fn_map']
+    spec, fmap = ('attr', SELF, '_cost_specification'), ('attr', SELF, '_cost_fn_map')
+    name = ('param', gc.params[1])
+
+    def strip(t):
+        while t[0] == 'cast' or is_call(t, 'typing.cast'):
+            t = t[-1] if t[0] == 'cast' else t[2][-1]
+        return t
+    n = 0
+    for p in returning(paths(repo, gc)):
+        r = p.retval
+        if r is None or method_call(r) is None or method_call(r)[1] != '_get_single_cost' or \
+                len(r[2]) != 2:
+            continue
+        n += 1
+        a, b = strip(r[2][0]), strip(r[2][1])
+        unnamed = any(x == ('isnone', name) and pol for x, pol in p.assumptions)
+        want = (spec, fmap) if unnamed else (('sub', spec, name), ('sub', fmap, name))
+        ok = (a, b) == want
+        ctx.ob(rule, f'DNAS.get_cost({"None" if unnamed else "name"}) evaluates the '
+               f'{"single" if unnamed else "named"} metric', ok,
+               'specification and function map of the same metric' if ok else
+               f'_get_single_cost receives ({short(a, 60)}, {short(b, 60)}): the named cost is '
+               f'computed with the specification / cost functions of another metric, so a '
+               f'regularizer constrains a different quantity than the one its target names',
+               where(gc))
+    ctx.floor(rule, 'DNAS.get_cost return paths', n, 2)
+    n = 0
+    for p in returning(paths(repo, mk)):
+        pairs = [(e.data[1], e.data[2], e.node) for e in p.events if e.kind == 'setitem']
+        # ... or a dict comprehension {n: f(c) for n, c in spec.items()}
+        for x in subterms(p.retval) if p.retval is not None else ():
+            if x[0] == 'comp' and x[1] == 'dict' and len(x[2]) == 2:
+                pairs.append((x[2][0], x[2][1], None))
+        for k, v, node in pairs:
+            e = Event('setitem', (), node, ())
+            n += 1
+            ok = k[0] == 'sub' and k[2] == ('const', 0) and k[1][0] == 'elem' and \
+                method_call(k[1][1]) is not None and method_call(k[1][1])[0] == spec and \
+                method_call(k[1][1])[1] == 'items' and method_call(v) is not None and \
+                method_call(v)[1] == '_single_cost_fn_map' and \
+                method_call(v)[2] == (('sub', k[1], ('const', 1)),)
+            ctx.ob(rule, 'DNAS._create_cost_fn_map builds each map from its own specification',
+                   ok, 'map[name] = _single_cost_fn_map(spec[name])' if ok else
+                   f'the map stored under {short(k, 50)} is {short(v, 90)}: not built from the '
+                   f'specification of the same name', where(mk, e.node))
+    ctx.floor(rule, 'function-map stores', n, 1)
+
+
 def run(ctx):
+    named_cost_plumbing(ctx, 'R19e')
     # premise: model.get_cost(name) is a function of the NAMED specification only (no value
     # memoised for one metric is returned for another) - the memo rule of C04/C05/C06
     from .c06 import memo_rule
